@@ -283,3 +283,7 @@ def check(ctx):
                                   'the serial driver does not pass chkpt\'s state of this iteration to the kernel',
                                   {'state': T.pretty(st)[:300], 'reads_per_iteration': n_get})
             ctx.guard('R3', fsite(d), r3)
+    # a reloaded checkpoint continues with the state that was written: the reader stores the values
+    # it read, unmodified (shared with C05)
+    share(ctx, 'C05', 'R7/C05.', ['vii.'])
+
